@@ -63,6 +63,11 @@ func genString(t *rapid.T, label string, sel bool, binary bool) refdec.BS {
 		}
 	}
 	if sel {
+		if chancePct(t, 15, label+"numedge") {
+			// numbers at the edges of decimal and binary widths (the assembler reads an
+			// all-digit selector as a number and writes it out again)
+			return refdec.BS([]string{"10", "100", "1000", "1000000", "999999999", "1000000000", "2147483647", "2147483648", "3999999999", "4000000000", "4294967295", "65535", "65536", "255", "256"}[uniformN(t, 15, label+"numedgev")])
+		}
 		return refdec.BS(selGrammar.Draw(t, label))
 	}
 	return refdec.BS(symGrammar.Draw(t, label))
@@ -415,6 +420,20 @@ func checkC14(c C14Case) (o Outcome) {
 		}); p != nil {
 			o.Viol = &Violation{Kind: "asm-panic", Msg: fmt.Sprintf("asm.Parse panics on the listing %q: %s", text, p.val), Detail: p.stack}
 			return
+		}
+		// ... and where the assembler takes the listing, it writes the bytes the listing was
+		// made from (selector shapes of known finding F-C16-1 aside)
+		if e1 == nil && !bytes.Equal(a1.Bytes(), enc) {
+			bad := false
+			for _, in := range ins {
+				if knownBadSelector(string(in.Sel)) {
+					bad = true
+				}
+			}
+			if !bad {
+				o.Viol = viol("assembler-disagrees", "the listing %q of %x assembles to %x", text, enc, a1.Bytes())
+				return
+			}
 		}
 		if (e1 == nil) != (e2 == nil) || !bytes.Equal(a1.Bytes(), a2.Bytes()) {
 			o.Viol = viol("assembler-depends-on-history", "the listing %q assembles to %x (%v); after an assembly whose output failed half-way it assembles to %x (%v)", text, a1.Bytes(), e1, a2.Bytes(), e2)
